@@ -70,6 +70,7 @@ def canon_obs(o, flavor, side):
         "S": o["S"],
         "T": [_canon_rec(r) for r in o["T"]],
         "H": {k: list(v) for k, v in sorted(o["H"].items())},
+        "K": {k: v for k, v in sorted((o.get("K") or {}).items())},
     }
     if flavor == "sync":
         d["E"] = o.get("E", "")
